@@ -36,6 +36,10 @@ def handleFit (i o : Json) : Except String Verdict := do
   let res ← getArr o "res"
   if cases.size != res.size then throw "cases/res length"
   let k := Kind.ofType typ
+  -- the first failure of the property's predicate is remembered and reported at the end, so that the model is still
+  -- compared on every tuple of the batch (a model mismatch is only reported when the predicate holds everywhere)
+  let mut specFail : Option Verdict := none
+  let mut mism : Option Verdict := none
   for (cj, rj) in cases.toList.zip res.toList do
     let c ← rats cj
     if let some s := firstStr rj then
@@ -48,20 +52,34 @@ def handleFit (i o : Json) : Except String Verdict := do
       --  fit applies the padding along the diagonal or through ratio tables: the content itself)
       let t := slackFor typ
       let (cw, ch) := if k.isSome then (w + px, h + py) else (w, h)
-      if !decide (innerOK ⟨ix, iy, iw, ih⟩ W H cw ch t) then
-        return .specfalse s!"inner-does-not-contain:{typ}"
-          s!"content {w}x{h} padding {px},{py}: fitted {W}x{H}, inner box x={ix} y={iy} w={iw} h={ih}"
-      match k with
-      | some kind =>
-        let (mW, mH) := fit kind w h px py
-        if !(close mW W && close mH H) then
-          return .mismatch s!"fit:{typ}" s!"content {w}x{h} padding {px},{py}: model {mW}x{mH} vs impl {W}x{H}"
-        let mi := inner kind W H
-        if !(close mi.x ix && close mi.y iy && close mi.w iw && close mi.h ih) then
-          return .mismatch s!"inner:{typ}" s!"box {W}x{H}: model x={mi.x} y={mi.y} w={mi.w} h={mi.h} vs impl x={ix} y={iy} w={iw} h={ih}"
-      | none => pure ()
+      if specFail.isNone && !decide (innerOK ⟨ix, iy, iw, ih⟩ W H cw ch t) then
+        specFail := some (.specfalse s!"inner-does-not-contain:{typ}"
+          s!"content {w}x{h} padding {px},{py}: fitted {W}x{H}, inner box x={ix} y={iy} w={iw} h={ih}")
+      -- `pre`: the exact values under the four `math.Ceil`s of the cloud formulas (divisions / products by decimal
+      -- ratios): where the exact value is an integer the float64 value may sit one ulp above it and Ceil adds 1
+      let model : Option ((Rat × Rat) × IBox × Option (Rat × Rat × Rat × Rat)) :=
+        match k with
+        | some kind => some (fit kind w h px py, inner kind W H, none)
+        | none =>
+          if typ == "Cloud" then
+            let hint := (getBool i "hint").toOption.getD false
+            let hv := if hint && h != 0 then some (cloudHint w h) else none
+            let c := cloudInnerCat hv W H
+            let p := cloudFitPre w h px py
+            some (cloudFit w h px py, cloudInner hv W H, some (p.1, p.2, W * c.innerX, H * c.innerY))
+          else none
+      if let some ((mW, mH), mi, pre) := model then
+        let cc (m v : Rat) (p : Option Rat) : Bool :=
+          close m v || (match p with | some q => ceilR q == q && close (m + 1) v | none => false)
+        if mism.isNone && !(cc mW W (pre.map (·.1)) && cc mH H (pre.map (·.2.1))) then
+          mism := some (.mismatch s!"fit:{typ}" s!"content {w}x{h} padding {px},{py}: model {mW}x{mH} vs impl {W}x{H}")
+        if mism.isNone && !(cc mi.x ix (pre.map (·.2.2.1)) && cc mi.y iy (pre.map (·.2.2.2)) && close mi.w iw && close mi.h ih) then
+          mism := some (.mismatch s!"inner:{typ}" s!"box {W}x{H}: model x={mi.x} y={mi.y} w={mi.w} h={mi.h} vs impl x={ix} y={iy} w={iw} h={ih}")
     | _, _ => throw "bad tuple"
-  return .ok
+  match specFail, mism with
+  | some v, _ => return v
+  | none, some v => return v
+  | none, none => return .ok
 
 /-- squared distance from `p` to the segment `a b` -/
 def dist2 (px py ax ay bx b_y : Rat) : Rat :=
